@@ -80,6 +80,8 @@ structure Heap where
   fns : List Clo := []
   shapes : List Shape := []
   reg : List (String × Nat) := []
+  pbacks : List (List (Int × Int)) := []    -- backing arrays of the [][2]int slices (elements are VALUES)
+  pairs : List Nat := []                    -- handle table: backing id (cap == len always)
   deriving Repr
 
 def setAt {α} (l : List α) (i : Nat) (x : α) : List α := l.set i x
@@ -149,6 +151,15 @@ def mapOf (h : Heap) (t : Option Nat) : List (String × Int) :=
   | none => []
   | some id => (h.maps[id]?).getD []
 
+def showPairs (l : List (Int × Int)) : String :=
+  toString l.length ++ ":" ++ String.join (l.map fun e => itoa e.1 ++ "." ++ itoa e.2 ++ ",")
+
+def pback (h : Heap) (s : Int) : Option (Nat × List (Int × Int)) :=
+  if s < 0 then none else
+  match h.pairs[s.toNat]? with
+  | some b => some (b, (h.pbacks[b]?).getD [])
+  | none => none
+
 def render (h : Heap) : String :=
   let ns := h.nodes.map fun x =>
     match x with
@@ -164,6 +175,7 @@ def render (h : Heap) : String :=
     ++ "]F" ++ toString h.fns.length
     ++ "H[" ++ String.join (h.shapes.map fun s => itoa (h.area s) ++ ";")
     ++ "]R" ++ toString h.reg.length
+    ++ "Q[" ++ String.join (h.pairs.map fun b => showPairs ((h.pbacks[b]?).getD []) ++ ";") ++ "]"
 
 end Heap
 
@@ -175,7 +187,7 @@ inductive Arg
 
 /-- the exported functions of the realm -/
 inductive Fn
-  | NewNode | SetV | GetV | Link | Unlink | Walk | Drop | AddKid | KidSum | Tag | Untag | TagGet | RegPut | RegDel | RegGet | CopyNode | SetArr | GetArr | MkSlice | Sub | SetElem | App | GetSlice | PtrV | PtrArr | PtrElem | SetPtr | GetPtr | MkCounter | MkPair | MkAdder | CallFn | MkSq | MkRc | DupShape | Area | Grow | SetAny | AnyStr | Render
+  | NewNode | SetV | GetV | Link | Unlink | Walk | Drop | AddKid | KidSum | Tag | Untag | TagGet | RegPut | RegDel | RegGet | CopyNode | SetArr | GetArr | MkSlice | Sub | SetElem | App | GetSlice | PtrV | PtrArr | PtrElem | SetPtr | GetPtr | MkCounter | MkPair | MkAdder | CallFn | MkSq | MkRc | DupShape | Area | Grow | SetAny | AnyStr | MkPairs | ClonePairs | DupPairs | AppPair | SetPair | GetPairs | Render
   deriving DecidableEq, Repr
 
 def Fn.ofString : String → Option Fn
@@ -219,6 +231,12 @@ def Fn.ofString : String → Option Fn
   | "SetAny" => some .SetAny
   | "AnyStr" => some .AnyStr
   | "Render" => some .Render
+  | "MkPairs" => some .MkPairs
+  | "ClonePairs" => some .ClonePairs
+  | "DupPairs" => some .DupPairs
+  | "AppPair" => some .AppPair
+  | "SetPair" => some .SetPair
+  | "GetPairs" => some .GetPairs
   | _ => none
 
 def alistSet (l : List (String × Int)) (k : String) (v : Int) : List (String × Int) :=
@@ -445,6 +463,39 @@ def stepCore (h : Heap) (fn : Fn) (args : List Arg) : Heap × String :=
   | .AnyStr, [.i n] =>
     match h.nodeAddr n with
     | some a => (h, h.anyStr (h.node a).any)
+    | none => bad
+  | .MkPairs, [.i n] =>
+    if n < 0 || n > 4 then bad else
+    let data : List (Int × Int) := (List.range n.toNat).map fun (i : Nat) => (Int.ofNat i, Int.ofNat i * 10)
+    ({ h with pbacks := h.pbacks ++ [data], pairs := h.pairs ++ [h.pbacks.length] }, toString h.pairs.length)
+  | .ClonePairs, [.i s] =>
+    match h.pback s with
+    | some (_, data) =>
+      -- append to a nil slice: a fresh backing array, element arrays copied by value
+      ({ h with pbacks := h.pbacks ++ [data], pairs := h.pairs ++ [h.pbacks.length] }, toString h.pairs.length)
+    | none => bad
+  | .DupPairs, [.i s] =>
+    match h.pback s with
+    | some (b, _) => ({ h with pairs := h.pairs ++ [b] }, toString h.pairs.length)
+    | none => bad
+  | .AppPair, [.i s, .i a, .i b] =>
+    match h.pback s with
+    | some (_, data) =>
+      -- cap == len: always reallocates; other handles keep the old backing array
+      let data' := data ++ [(a, b)]
+      ({ h with pbacks := h.pbacks ++ [data'], pairs := setAt h.pairs s.toNat h.pbacks.length }, showPairs data')
+    | none => bad
+  | .SetPair, [.i s, .i i, .i j, .i v] =>
+    match h.pback s with
+    | some (b, data) =>
+      if i < 0 || i ≥ data.length || j < 0 || j > 1 then bad else
+      let e := (data[i.toNat]?).getD (0, 0)
+      let e' := if j == 0 then (v, e.2) else (e.1, v)
+      ({ h with pbacks := setAt h.pbacks b (setAt data i.toNat e') }, "ok")
+    | none => bad
+  | .GetPairs, [.i s] =>
+    match h.pback s with
+    | some (_, data) => (h, showPairs data)
     | none => bad
   | .Render, [.i _] => (h, h.render)
   | _, _ => (h, "err:badop")
